@@ -172,3 +172,13 @@ package reporter
 //@   loop 1 invariant 0 <= iter && iter <= len(s.reports) && hits == 0 && calls == iter
 //@   ensures result <==> hits > 0
 //@   ensures !result ==> calls == len(s.reports)
+
+// C11: the final order of the reports is the order of a comparison that only ties reports of the same rule, check,
+// severity and summary (reports of one rule and check are produced by one job, in program order), so the order in
+// which workers deliver reports of different rules cannot show in the output.
+//@ func Summary.SortReports$2 [C11]
+//@   ensures result == 0 ==> a.Path.Name == b.Path.Name
+//@   ensures result == 0 ==> a.Problem.Lines.First == b.Problem.Lines.First && a.Problem.Lines.Last == b.Problem.Lines.Last
+//@   ensures result == 0 ==> a.Problem.Severity == b.Problem.Severity
+//@   ensures result == 0 ==> a.Problem.Reporter == b.Problem.Reporter
+//@   ensures result == 0 ==> a.Problem.Summary == b.Problem.Summary
